@@ -193,7 +193,8 @@ pub fn write_float_scientific<const FORMAT: u128>(
     options: &Options,
 ) -> usize {
     // PRECONDITIONS
-    debug_assert!(bytes.len() >= BUFFER_SIZE);
+    // The caller has at least `BUFFER_SIZE` bytes, of which 1 may hold the sign.
+    debug_assert!(bytes.len() >= BUFFER_SIZE - 1);
 
     // Config options.
     let format = NumberFormat::<{ FORMAT }> {};
@@ -268,7 +269,8 @@ pub fn write_float_nonscientific<const FORMAT: u128>(
     options: &Options,
 ) -> usize {
     // PRECONDITIONS
-    debug_assert!(bytes.len() >= BUFFER_SIZE);
+    // The caller has at least `BUFFER_SIZE` bytes, of which 1 may hold the sign.
+    debug_assert!(bytes.len() >= BUFFER_SIZE - 1);
 
     // Config options.
     let format = NumberFormat::<{ FORMAT }> {};
